@@ -227,7 +227,7 @@ pub fn run_case(case: &ApiCase, stats: &mut Stats) -> Result<CaseInfo, Failure> 
             stats.count("module.quantizer", 1);
         }
         ApiCase::Ribbon { rate_idx, softpot_idx, dropper_frac, pullup_factor, calls } => {
-            let rc = ribbon::RibbonCase { rate_idx: *rate_idx, softpot_idx: *softpot_idx, dropper_frac: *dropper_frac, pullup_factor: *pullup_factor, segs: vec![] };
+            let rc = ribbon::RibbonCase { rate_idx: *rate_idx, softpot_idx: *softpot_idx, dropper_frac: *dropper_frac, pullup_factor: *pullup_factor, segs: vec![], edge_ulps: None };
             let cfg = ribbon::config(&rc);
             let (mut r, _) = guard("ribbon", 0, format!("RibbonController::new(fs = {})", cfg.fs), || ribbon::make(*rate_idx as usize, cfg.sp, cfg.dr, cfg.pu))?;
             for (i, c) in calls.iter().enumerate() {
